@@ -36,7 +36,7 @@ def run(rep, tier):
         plan.append(('full P<=3,K<=3 all variants', variants((1, 2, 3), (1, 2, 3)), None))
         plan.append(('full P=4,K=3 (SDC jac/GS, PFASST burn-in)', [c for c in variants((4,), (3,), Ls=(1, 2), nsweeps=(1,)) if not c['all_to_done'] and c['predict'] in (None, 'pfasst_burnin') and (c['L'] == 1 or c['predict'])], None))
         plan.append(('forced flags <=1, P<=3,K<=2', [c for c in variants((2, 3), (1, 2), Ls=(1, 2), nsweeps=(1,), forced=True) if c['predict'] in (None, 'pfasst_burnin')], 1))
-        plan.append(('two blocks full P=2,K=2', [c for c in variants((2,), (2,), nsweeps=(1,), nblocks=2, state_block=True) if c['predict'] in (None, 'pfasst_burnin')], None))
+        plan.append(('two blocks full P=2,K=2 (all three predictors)', variants((2,), (2,), nsweeps=(1,), nblocks=2, state_block=True), None))
         plan.append(('full tree, two blocks of which the second is only partially filled (P-1 and 1 active steps), P=2..3,K<=2', [dict(c, nblocks=2, Tend=0.125 * n) for c in variants((2, 3), (1, 2), Ls=(1, 2), nsweeps=(1,)) if c['predict'] in (None, 'pfasst_burnin') for n in sorted({2 * c['P'] - 1, c['P'] + 1})], None))
         plan.append(('forced flag or convergence deviation (<=1), two blocks and a second run() on the same controller, P=2..3,K=2', [dict(c, **extra) for c in variants((2, 3), (2,), Ls=(1, 2), nsweeps=(1,), forced=True, conv_cost=1) if c['predict'] in (None, 'pfasst_burnin') for extra in (dict(nblocks=2), dict(second_run=0.125 * c['P']))], 1))
     else:
